@@ -319,6 +319,20 @@ def gen_script(rng):
     return "mb.run " + " ".join(toks), exp, mem
 
 
+def contract_len(exp, mem):
+    """number of answer tokens that lie inside the buffer contract: everything up to and including the last operation the
+    reference has an expectation for (an allocation or operation outside the contract - degenerate sizes, an unchecked
+    operation beyond its room - is compared with the model too, but a difference there is not a broken tie: the property
+    says nothing about it, a hardening change may define it)"""
+    if mem is not None:
+        return None                      # the whole script, final memory included
+    n = 0
+    for i, e in enumerate(exp):
+        if e is not None:
+            n = i + 1
+    return n
+
+
 def split_answer(ans):
     return ans.split()
 
@@ -392,11 +406,26 @@ def gen_queue(rng):
     return "mb.q " + " ".join(toks), (exp or ["ok"])
 
 
-def compare_ub(corr, reqs, impl_ans, model_ans, limit=50):
+def compare_ub(corr, reqs, impl_ans, model_ans, limit=50, domain=None):
     """token-wise comparison; where the model's answer ends in UB:<tag> only the tokens before it are compared (the unchanged
-    code's behaviour there is undefined: whatever it does refines the model)"""
-    for r, a, b in zip(reqs, impl_ans, model_ans):
+    code's behaviour there is undefined: whatever it does refines the model).  domain[i]: None = the whole answer is inside
+    the property's domain, k = only the first k tokens are (a difference behind them is recorded, not a broken tie)."""
+    for idx, (r, a, b) in enumerate(zip(reqs, impl_ans, model_ans)):
         ta, tb = a.split(), b.split()
+        k = domain[idx] if domain is not None else None
+        if k is not None and ta != tb:
+            pre_b = tb[:k]
+            if pre_b and pre_b[-1].startswith("UB:"):
+                pre_b = pre_b[:-1]
+            if ta[:len(pre_b)] == pre_b:
+                corr.outside += 1
+                key = "outside the property's domain: code and model differ behind the in-domain prefix"
+                if tb and tb[-1].startswith("UB:") and ta[:len(tb) - 1] == tb[:-1]:
+                    key = "model UB: %s -> %s" % (tb[-1], (ta[len(tb) - 1:] or ["(nothing)"])[0].split("/")[0][:12])
+                corr.distribution[key] = corr.distribution.get(key, 0) + 1
+                if len(corr.outside_samples) < 5:
+                    corr.outside_samples.append({"request": r[:300], "impl": a[:200], "model": b[:200]})
+                continue
         if tb and tb[-1].startswith("UB:"):
             pre = tb[:-1]
             if ta[:len(pre)] == pre:
@@ -630,7 +659,7 @@ def correspond(run, corr, first_part=()):
     lines = [s[0] for s in scripts]
     a = impl(run, "msgb", lines)
     b = vf.run_driver(lines)
-    compare_ub(corr, lines, a, b)
+    compare_ub(corr, lines, a, b, domain=[contract_len(sc[1], sc[2]) for sc in scripts])
     run.c06m_scripts = list(zip(scripts, a))
     for l, x in zip(lines, a):
         last = x.split()[-1] if x.split() else ""
@@ -688,7 +717,18 @@ def correspond(run, corr, first_part=()):
     ol = [o[0] for o in oc]
     oa = impl(run, "osmocon", ol)
     ob = vf.run_driver(ol)
-    compare_ub(corr, ol, oa, ob)
+    # inside the property's domain: writes, sends of 0..255 octets (shorter than the phone's buffer) on the DLCIs of the
+    # tools, streams of whole frames with prompt-free noise; the rest (longer or negative lengths, other DLCIs, prompt
+    # sequences, random garbage, truncated frames) is compared with the model but is not the property's business
+    def oc_domain(c):
+        if c["kind"] == "host-write":
+            return None
+        if c["kind"] == "host-read":
+            return None if c.get("pure") else 0
+        if c["kind"] == "host-send-bound":
+            return None if 0 <= c["len"] < 256 and c["have"] >= c["len"] else 0
+        return 0
+    compare_ub(corr, ol, oa, ob, domain=[oc_domain(c) for _, c in oc])
     run.c06m_osmocon = list(zip(oc, oa))
     for (l, c), x in zip(oc, oa):
         corr.count(hashlib.md5(l.encode()).hexdigest()[:16], "osmocon: " + c["kind"] + (" (complete writes)" if c.get("complete") else ""))
